@@ -12,5 +12,5 @@ for d in seeded/*/; do
   pairs="$pairs $id:$p"
 done
 [ -f seeded/ALSO.txt ] && while read id p; do pairs="$pairs $id:$p"; done < seeded/ALSO.txt
-for x in $pairs; do echo $x; done | xargs -P 3 -I{} bash -c 'x={}; selftest/run_seeded.sh ${x%%:*}__${x##*:} ${x##*:}' 2>&1 | grep -v conda | sort > seeded/RESULTS.txt
+for x in $pairs; do echo $x; done | xargs -P ${PAR:-3} -I{} bash -c 'x={}; selftest/run_seeded.sh ${x%%:*}__${x##*:} ${x##*:}' 2>&1 | grep -v conda | sort > seeded/RESULTS.txt
 cat seeded/RESULTS.txt
